@@ -197,6 +197,27 @@ MUTANTS = [
      'N: alias removed'),
     ('C09', 'cdf_layer.py', '      result = tf.reduce_mean(result, axis=1)', '      result = tf.reduce_mean(result, axis=-2)', None,
      'N: axis=1 written as -2 on a rank-3 tensor'),
+    ('C04', 'pwl_calibration_lib.py', '  if output_min_constraints != BoundConstraintsType.NONE:\n    bias = tf.maximum(bias, output_min)\n  if output_max_constraints == BoundConstraintsType.NONE:\n    return bias, heights\n  bias = tf.minimum(bias, output_max)',
+     '  if output_max_constraints == BoundConstraintsType.NONE:\n    return bias, heights\n  bias = tf.minimum(bias, output_max)', 'K4',
+     'squeeze-by-scaling ignores the lower bound of an increasing calibrator'),
+    ('C04', 'pwl_calibration_lib.py', '      if heights.shape[0] >= 3:', '      if heights.shape[0] >= 4:', 'T2', 'convexity group 1 skipped for 3 heights'),
+    ('C04', 'pwl_calibration_lib.py', '      if heights.shape[0] >= 2:', '      if heights.shape[0] > 1:', None, 'N: equivalent size guard'),
+    ('C04', 'pwl_calibration_layer.py', '    if self.upper_bound is not None:\n      w = tf.minimum(w, self.upper_bound)',
+     '    if self.upper_bound is not None and self.lower_bound is not None:\n      w = tf.minimum(w, self.upper_bound)', 'K3', 'upper bound only clipped when a lower bound exists'),
+    ('C06', 'categorical_calibration_lib.py', '  if output_max is not None:\n    projected_weights = tf.minimum(projected_weights, output_max)',
+     '  if output_max is not None and output_min is not None:\n    projected_weights = tf.minimum(projected_weights, output_max)', 'K3', 'one-sided upper bound dropped'),
+    ('C06', 'internal_utils.py', '      result = [v] + result', '      result = result + [v]', 'O2', 'finish order not reversed'),
+    ('C06', 'internal_utils.py', '      result = [v] + result', '      result.insert(0, v)', None, 'N: insert(0, v) instead of list concatenation'),
+    ('C17', 'premade_lib.py', '        # going out of bound on the lattice\n        addition_score = -2.0',
+     '        # going out of bound on the lattice\n        addition_score = -1.0', 'W7', 'full lattice ties with a repeat'),
+    ('C17', 'premade_lib.py', '        # going out of bound on the lattice\n        addition_score = -2.0',
+     '        # going out of bound on the lattice\n        addition_score = -3.0', None, 'N: lower penalty for full lattices'),
+    ('C17', 'premade_lib.py', '    score_candidates_pairs.sort(reverse=True)', '    score_candidates_pairs.sort()', 'W7', 'lowest score taken'),
+    ('C01', 'lattice_lib.py', '  else:\n    return tf.maximum(differences, 0)',
+     '  else:\n    return tf.maximum(tf.reduce_max(differences, axis=axis), 0)', 'L9',
+     'trapezoid-only mode also over-shoots on opposed pairs'),
+    ('C01', 'lattice_lib.py', '  else:\n    return tf.maximum(differences, 0)',
+     '  else:\n    return tf.maximum(differences, 0.0)', None, 'N: float literal in the exact repair'),
     ('C01', 'lattice_lib.py', '    layers = _unstack_nd(trust_projection, [main_dim, cond_dim])', '    layers = _unstack_nd(trust_projection, dims=[main_dim, cond_dim])',
      None, 'N: keyword form of dims'),
 ]
